@@ -8,6 +8,10 @@ Binding (B3 both ways): TLC-enumerated documents are rendered to text by harness
 ends, API chosen by seed), parsed by the real tars/util/conf and queried with every getter on every path; TLC
 checks that the text is the rendering of the abstract lines and compares every answer with the reference.
 Arbitrary byte strings are run for panics.  The binding is demonstrated on every run by corrupting records.
+Lines without '=' (the statement does not say whether they define a key): both readings are admitted, one per
+document (Conf!RunR); the shard "bare" writes the same key in every combination of the forms k=v / k= / k, in one
+block and in a re-opened one, beside a bare key that is bound nowhere, each document in three layouts (seeded,
+plain, inline <a>k</a>); answers that fit neither reading are a wrong result.
 Second observation: after the first pass of questions the driver does to every listing / map it received what a
 caller may do to a value it owns (sort, rewrite, reuse, clear; also to the buffer it had handed to InitFromBytes)
 and asks again; Oracle_Conf!Again requires the same answers (Conf.tla, "Sessions").
@@ -35,10 +39,10 @@ TYPED = '{"0", "1", "12", "-7", "3000000000", "1.5", "true", "false", "abc", "",
 
 
 def shard(name, names, keys, vals, hos="HosNone", noise="NoiseNone", maxlen=6, depth=2, opens=2, kv=2, nnoise=0,
-          tail=1, unclosed=2, mismatch=False, keep=None, simulate=None, must_contain=None):
+          tail=1, unclosed=2, mismatch=False, keep=None, simulate=None, must_contain=None, lays=("",)):
     return dict(name=name, NAMES=names, KEYS=keys, VALS=vals, HOS=hos, NOISE=noise, MAXLEN=maxlen, MAXDEPTH=depth,
                 MAXOPEN=opens, MAXKV=kv, MAXNOISE=nnoise, MAXTAIL=tail, UNCLOSED=unclosed,
-                MISMATCH="TRUE" if mismatch else "FALSE", keep=keep, simulate=simulate, must_contain=must_contain)
+                MISMATCH="TRUE" if mismatch else "FALSE", keep=keep, simulate=simulate, must_contain=must_contain, lays=lays)
 
 
 def shards(ctx):
@@ -53,6 +57,10 @@ def shards(ctx):
         # the line level: values with '=', blanks, empty; comments, blank lines, lines without '=' / without key
         shard("lines", N1, K2, '{"1", "x=y", "", "a b"}', noise="NoiseAll", maxlen=5 if q else 6, depth=1, opens=2, kv=3,
               nnoise=2, unclosed=2, keep=1800 if q else None),
+        # one key written several times in the forms k=v / k= / k (bare), in one block and in a re-opened one, beside a
+        # bare key bound nowhere; every document in three layouts
+        shard("bare", N1, K1, '{"12", ""}', noise="NoiseBare", maxlen=7, depth=1, opens=2, kv=3, nnoise=3, unclosed=0,
+              keep=450 if q else None, lays=("", "plain", "inline")),
         # typed getters over the whole vocabulary
         shard("typed", N1, K2, TYPED, maxlen=4, depth=1, opens=1, kv=2, unclosed=1),
         # XML-hostile characters inside values and comments
@@ -65,7 +73,7 @@ def shards(ctx):
         shard("long", N1, K2, '{"@LONG", "1"}', maxlen=4, depth=1, opens=1, kv=2, unclosed=0, keep=5 if q else None,
               must_contain="@LONG"),
         # random longer documents (TLC simulation mode)
-        shard("sim", N3, K2, '{"1", "x=y", "", "a b", "12", "a#b"}', noise="NoiseAll", maxlen=16, depth=3, opens=6, kv=7,
+        shard("sim", N3, K2, '{"1", "x=y", "", "a b", "12", "a#b"}', noise="NoiseAllBare", maxlen=16, depth=3, opens=6, kv=7,
               nnoise=3, unclosed=3, simulate=ctx.pick(400, 8000), keep=ctx.pick(500, 15000)),
         shard("simbad", N3, K2, '{"1", "x=y"}', hos="HosTwo", noise="NoiseSome", maxlen=12, depth=3, opens=4, kv=4,
               nnoise=1, tail=2, unclosed=3, mismatch=True, simulate=ctx.pick(300, 4000), keep=ctx.pick(300, 4000)),
@@ -244,7 +252,15 @@ def selftest_target(rec):
     return None
 
 
-def selftest(ctx, accepted_doc, fuzz_line):
+def bare_target(rec):
+    """A record whose document binds k1 with '=' to a non-empty value, writes k1 bare afterwards (last) and k3 bare."""
+    ls = [l for l in rec["lines"] if l["t"] in ("kv", "key") and l["k"] == "k1"]
+    return (len(ls) >= 2 and ls[-1]["t"] == "key" and any(l["t"] == "kv" and l["v"] == "12" for l in ls[:-1])
+            and any(l["t"] == "key" and l["k"] == "k3" for l in rec["lines"])
+            and len({l["k"] for l in rec["lines"] if l["t"] == "open"}) == 1)
+
+
+def selftest(ctx, accepted_doc, fuzz_line, bare_doc=None):
     """Corrupt recorded observations; the oracle must flag exactly the corrupted records."""
     base = json.loads(accepted_doc)
     n = selftest_target(base)
@@ -289,6 +305,23 @@ def selftest(ctx, accepted_doc, fuzz_line):
     variant("second-observation-lines", "result-aliases-configuration:GetDomainLine", again_lines)
     variant("second-observation-map", "result-aliases-configuration:GetMap", again_map)
     variant("text-not-rendering", "harness:record-not-sane", other_text)
+    if bare_doc is not None:
+        b0 = json.loads(bare_doc)
+        cases.append(("bare-original", b0, ""))
+        b1 = json.loads(bare_doc)           # the earlier k1=12 kept although k1 is written bare afterwards
+        for q_ in (b1["q"], b1["q2"]):
+            for e in q_:
+                for g in e["g"]:
+                    if g[0] == "k1":
+                        g[1] = ["12", "12", "12", "12", "12", "true", "false", "12"]
+                e["map"] = [[k, "12" if k == "k1" else x] for k, x in e["map"]]
+        # (which getter names the signature depends on the reading the answers are closer to)
+        cases.append(("bare-duplicate-keeps-earlier-value", b1, ("wrong-result:", ":document-with-key-only-lines")))
+        b2 = json.loads(bare_doc)           # k3, written bare and bound nowhere, listed as a key but absent from the map
+        for q_ in (b2["q"], b2["q2"]):
+            for e in q_:
+                e["map"] = [[k, x] for k, x in e["map"] if k != "k3"]
+        cases.append(("bare-key-listed-but-not-in-map", b2, ("wrong-result:", ":document-with-key-only-lines")))
     if fuzz_line is not None:
         f0 = json.loads(fuzz_line)
         cases.append(("fuzz-original", f0, ""))
@@ -298,7 +331,7 @@ def selftest(ctx, accepted_doc, fuzz_line):
     vs, _ = oracle(ctx, [json.dumps(c[1]) + "\n" for c in cases], "selftest")
     out = {}
     for (nm, _, want), v in zip(cases, vs):
-        ok = v["sig"] == want
+        ok = v["sig"] == want if isinstance(want, str) else (v["sig"].startswith(want[0]) and v["sig"].endswith(want[1]))
         out[nm] = ("accepted" if want == "" else "rejected as " + v["sig"]) if ok else "UNEXPECTED sig=%r want=%r" % (v["sig"], want)
         if not ok:
             raise Inconclusive("binding self-test failed: case %s judged %r, expected %r" % (nm, v["sig"], want))
@@ -347,6 +380,9 @@ def report(ctx, v, rec, hexin=None):
     what = WHAT.get(sig)
     if what is None and sig.startswith("wrong-result:"):
         what = "%s document parsed successfully but %s differ(s) from the reference" % (v.get("cls"), ", ".join(v.get("fs") or [sig[13:]]))
+        if v.get("rd") == "neither":
+            what += (" under either reading of its lines without '=' (such a line defines its key with the empty value, so that a "
+                     "later bare duplicate wins over an earlier k=v / such a line defines nothing)")
     if what is None and sig.startswith("result-aliases-configuration:"):
         what = ("the configuration answered, the caller then changed the values it had received (%s), and the same questions "
                 "now get different answers from %s: what a getter hands out is still part of the parsed tree"
@@ -367,7 +403,9 @@ def run(ctx):
     ctx.level = "model_checking"
     ctx.assumptions = [
         "documents of the verdict grammar: keys only inside domains; key names, sub-domain names disjoint; lines without '=' "
-        "(key-only) and lines with an empty key are entries of the line listing but whether they define a key is not judged",
+        "(key-only) are entries of the line listing; whether they define a key (with the empty value, taking part in 'later "
+        "duplicates win') or not is not fixed by the statement: either reading is accepted, but one reading for all answers about "
+        "one document; lines with an empty key are entries of the line listing at most",
         "typed getters are judged over a vocabulary with undisputed parses (decimal integers, true/false, plain decimals); "
         "\"0\"/\"1\" as booleans are not judged; int is 64-bit (amd64)",
         "the oracle trusts the driver only for the calls themselves: the parsed text must equal the TLA+ rendering of the abstract lines",
@@ -402,7 +440,7 @@ def run(ctx):
         app_jobs.append(("pairs", "pairs", False, None))
     app_futs = [pool.submit(generate_app, ctx, *j) for j in app_jobs]
     gens = list(pool.map(lambda s: generate(ctx, s), shs))
-    docs, corpus, origin = [], {}, []
+    docs, corpus, origin, lays = [], {}, [], []
     gstates = gtrans = 0
     seen = set()
     for s, (ds, st) in zip(shs, gens):
@@ -410,18 +448,20 @@ def run(ctx):
         gstates += st["tlc_states"]
         gtrans += st["tlc_generated"]
         for d in ds:
-            key = json.dumps(d, sort_keys=True)
-            if key in seen:
-                continue
-            seen.add(key)
-            docs.append(d)
-            origin.append(s["name"])
+            for lay in s["lays"]:
+                key = lay + json.dumps(d, sort_keys=True)
+                if key in seen:
+                    continue
+                seen.add(key)
+                docs.append(d)
+                origin.append(s["name"])
+                lays.append(lay)
     ctx.log("documents", {k: v["run"] for k, v in corpus.items()}, "total", len(docs))
     ddir = ctx.sub("drive")
     dpath = os.path.join(ddir, "docs.ndjson")
     with open(dpath, "w") as f:
-        for d in docs:
-            f.write(json.dumps(d) + "\n")
+        for d, lay in zip(docs, lays):
+            f.write(json.dumps({"lay": lay, "lines": d} if lay else d) + "\n")
 
     # ---- 2b. documents for the application's reading (every key present / absent)
     rnd = random.Random(ctx.seed * 104729 + 17)
@@ -505,7 +545,8 @@ def run(ctx):
     observations = {}
     judged_full = 0
     nontrivial = set()
-    accepted_doc = None
+    accepted_doc = bare_doc = None
+    readings = {}
     samples = []
     hexes = None
     per_origin = {}
@@ -518,6 +559,11 @@ def run(ctx):
             if v["obs"]:
                 observations[v["obs"]] = observations.get(v["obs"], 0) + 1
             if kind == "doc":
+                if v.get("rd"):
+                    readings[v["rd"]] = readings.get(v["rd"], 0) + 1
+                    if bare_doc is None and v["sig"] == "" and v["rd"] == "defines" and origin[i] == "bare" \
+                            and bare_target(json.loads(rec_lines[i])):
+                        bare_doc = rec_lines[i]
                 po = per_origin.setdefault(origin[i], {"judged": 0, "rejected": 0})
                 po["judged"] += 1
                 if v["sig"]:
@@ -578,10 +624,14 @@ def run(ctx):
     if wf_ok == 0 and not ctx.violations:
         raise Inconclusive("no well-formed document reached the getter comparison")
 
+    if bare_doc is None and not ctx.violations:
+        raise Inconclusive("no accepted document writes a key with '=' and bare afterwards beside a bare key bound nowhere: "
+                           "the duplicate forms of the shard 'bare' were not exercised (readings %s)" % readings)
+
     # ---- 5. binding self-test: corrupted records must be rejected, and only those
     st = st_fut = None
     if accepted_doc is not None:
-        st_fut = pool.submit(selftest, ctx, accepted_doc, next((l for l in fuzz_lines if '"class":"panic"' not in l), None))
+        st_fut = pool.submit(selftest, ctx, accepted_doc, next((l for l in fuzz_lines if '"class":"panic"' not in l), None), bare_doc)
 
     app_st = None
     if app_accepted is not None:
@@ -629,6 +679,10 @@ def run(ctx):
         "getter_paths_per_document": "every sequence over the document's domain names up to its number of opens (<= 4), "
                                      "8 scalar getters per key + GetDomain/GetDomainKey/GetDomainLine/GetMap per path",
         "observations_not_judged": observations,
+        "key_only_line_readings": dict(readings, note="documents with lines without '=': the reading (such a line defines its key with "
+                                                      "the empty value / is only a line) under which every answer agrees with the "
+                                                      "reference; 'either' = the two readings coincide on the document; 'neither' is a "
+                                                      "wrong result"),
         "random_inputs": {"n": nfuzz, "by_generator_and_outcome": fuzz_tally},
         "selftest_corrupted_records": st,
         "second_observation": "every document parsed successfully is asked everything twice; in between the driver sorts / "
